@@ -84,6 +84,9 @@ def reset_facts():
     global FACTS
     FACTS = Facts()
     _fresh_counter.clear()
+    _ABS_CACHE.clear()
+    del _ABS_SIDE[:]
+    _ABS_SIDE_SEEN.clear()
     return FACTS
 
 
@@ -463,3 +466,75 @@ def HEAD(s):
         # s = [head] + tail
         FACTS.add(z3.Implies(blen(s) >= 1, bval(s) == t * P256(blen(s) - 1) + bval(tl)), "head-tail-val")
     return t
+
+
+# ---- nonlinear abstraction ---------------------------------------------------------------------------------------------------
+# Products of two non-numeral terms and div/mod by a non-numeral are replaced by uninterpreted functions (consistently).
+# The abstraction only forgets facts, so `unsat` of the abstracted query implies `unsat` of the original one; a `sat`
+# answer of the abstracted query is NOT a counterexample.
+mulU = z3.Function("mulU", Int, Int, Int)
+divU = z3.Function("divU", Int, Int, Int)
+modU = z3.Function("modU", Int, Int, Int)
+_ABS_CACHE = {}
+_ABS_SIDE = []
+_ABS_SIDE_SEEN = set()
+
+
+def abstract_nl(e):
+    k = e.get_id()
+    r = _ABS_CACHE.get(k)
+    if r is not None:
+        return r[1]
+    if not z3.is_app(e) or e.num_args() == 0:
+        _ABS_CACHE[k] = (e, e)
+        return e
+    kind = e.decl().kind()
+    out = None
+    if kind == z3.Z3_OP_MUL:
+        # flatten nested products, multiply the numerals, sort the other factors: (d*y)*y and d*(y*y) abstract alike
+        factors, stack = [], list(e.children())
+        while stack:
+            f = stack.pop()
+            if z3.is_app(f) and f.decl().kind() == z3.Z3_OP_MUL:
+                stack.extend(f.children())
+            else:
+                factors.append(f)
+        coeff = 1
+        rest = []
+        for f in factors:
+            if z3.is_int_value(f):
+                coeff *= f.as_long()
+            else:
+                rest.append(abstract_nl(f))
+        if len(rest) >= 2:
+            rest.sort(key=lambda a: a.get_id())
+            acc = rest[0]
+            for a in rest[1:]:
+                acc = mulU(acc, a)
+            out = acc if coeff == 1 else IV(coeff) * acc
+        elif len(rest) == 1:
+            out = rest[0] if coeff == 1 else IV(coeff) * rest[0]
+        else:
+            out = IV(coeff)
+        _ABS_CACHE[k] = (e, out)
+        return out
+    args = [abstract_nl(a) for a in e.children()]
+    if False:
+        pass
+    elif kind in (z3.Z3_OP_IDIV, z3.Z3_OP_MOD) and not z3.is_int_value(args[1]):
+        a, b = args
+        out = (divU if kind == z3.Z3_OP_IDIV else modU)(a, b)
+        dv, md = divU(a, b), modU(a, b)
+        key = (a.get_id(), b.get_id())
+        if key not in _ABS_SIDE_SEEN:
+            _ABS_SIDE_SEEN.add(key)
+            # true facts about floor division by a positive divisor, stated over the abstraction
+            _ABS_SIDE.append(z3.Implies(b > 0, z3.And(md >= 0, md < b, a == mulU(*sorted([b, dv], key=lambda t: t.get_id())) + md)))
+            _ABS_SIDE.append(z3.Implies(z3.And(b > 0, a >= 0), z3.And(dv >= 0, dv <= a)))
+            _ABS_SIDE.append(z3.Implies(z3.And(b > 0, a < 0), dv < 0))
+            _ABS_SIDE.append(z3.Implies(z3.And(b > 0, a >= b), dv >= 1))
+            _ABS_SIDE.append(z3.Implies(z3.And(b > 0, a >= 0, a < b), z3.And(dv == 0, md == a)))
+    if out is None:
+        out = e.decl()(*args) if any(a.get_id() != b.get_id() for a, b in zip(args, e.children())) else e
+    _ABS_CACHE[k] = (e, out)
+    return out
